@@ -4,6 +4,7 @@ import (
 	"go/ast"
 	"go/token"
 	"go/types"
+	"sort"
 	"strings"
 
 	"golang.org/x/tools/go/ssa"
@@ -14,7 +15,7 @@ func init() {
 		ID:    "C03",
 		Title: "Best match: literals beat variables, independent of registration order",
 		Decided: "C03.a each comparator used to rank candidates is, over all 3^m order relations between its m keys, exactly a lexicographic comparison with one fixed direction per key and 'false' when all keys are equal (hence a strict weak order), its primary key for route candidates is the literal measure ordered so that more literal comes first (taking sort.Reverse at the call site into account), and the route comparators end in a strict comparison of Route.Path (a total tie-break, which makes the sorted order independent of registration order for distinct templates); " +
-			"C03.b the candidates are sorted after the last candidate was added and before they are handed on, and the stage function returns element 0 of its final, order-preserving list; C03.c in the root-path scorer every literal token adds strictly more than any variable token and all increments are positive, the best root is replaced only on a strictly greater score, and the scan over the services runs to exhaustion.",
+			"C03.d a mux registration is suppressed only by whole-pattern equality (reachability independent of Add order); C03.e the counters returned by a token matcher classify each segment once; C03.b the candidates are sorted after the last candidate was added and before they are handed on, and the stage function returns element 0 of its final, order-preserving list; C03.c in the root-path scorer every literal token adds strictly more than any variable token and all increments are positive, the best root is replaced only on a strictly greater score, and the scan over the services runs to exhaustion.",
 		NotDecided: "that the counts (static, literal, parameter) are computed correctly per template; the full 'never less specific' relation over arbitrary overlapping templates; stability issues of sort.Sort beyond totality of the order.",
 		Rules: []Rule{
 			{ID: "C03.a", Template: "T-CMP", Required: true, Run: ruleC03a,
@@ -23,6 +24,10 @@ func init() {
 				Doc: "Sorted before selected; first of the sorted survivors wins."},
 			{ID: "C03.c", Template: "T-ENFORCE", Required: true, Run: ruleC03c,
 				Doc: "Root score monotonicity: a literal and a variable root must not tie, and every service must be considered."},
+			{ID: "C03.d", Template: "T-SIBLING", Required: true, Run: ruleC11c,
+				Doc: "Which WebServices are reachable through the ServeMux must not depend on the order they were added: a mux registration is suppressed only by whole equality of the registered pattern with the pattern, computed the same way, of an already registered service. A prefix test drops the entry of /pq when /p was added first and keeps it otherwise."},
+			{ID: "C03.e", Template: "T-ENFORCE", Required: false, Run: ruleC03e,
+				Doc: "The token matcher returns the counters the candidates are ranked by. A segment is classified once: no increment of one counter lies under the condition that distinguishes the increments of another (the variable test). Counting a {var}suffix segment as static as well ties it with a literal segment on the first key, and the second key (more parameters first) then prefers the variable route."},
 		},
 	})
 }
@@ -893,4 +898,131 @@ func ruleC03c(c *Ctx) {
 	}
 	c.check(header != nil && early == "", sname, "the scan over the services runs to exhaustion", p.ipos(scoreCall), "the loop's only exit is the end of the list",
 		early+": a better (more literal) root registered later is never considered, so the outcome depends on registration order")
+}
+
+// ---------------------------------------------------------------------------
+// C03.e: a matcher that returns several counters (the keys the candidates are ranked by) classifies each
+// segment once: an increment of one counter never happens under the condition that distinguishes the
+// increments of another counter.
+
+func counterIncrements(v ssa.Value, seen map[ssa.Value]bool, out map[*ssa.BinOp]bool) {
+	v = strip(v)
+	if seen[v] {
+		return
+	}
+	seen[v] = true
+	switch x := v.(type) {
+	case *ssa.Phi:
+		for _, e := range x.Edges {
+			counterIncrements(e, seen, out)
+		}
+	case *ssa.BinOp:
+		if x.Op != token.ADD {
+			return
+		}
+		if n, ok := constInt(x.Y); ok && n == 1 {
+			out[x] = true
+			counterIncrements(x.X, seen, out)
+		} else if n, ok := constInt(x.X); ok && n == 1 {
+			out[x] = true
+			counterIncrements(x.Y, seen, out)
+		}
+	}
+}
+
+func ruleC03e(c *Ctx) {
+	p := c.P
+	n := 0
+	for _, fn := range p.requestPathFuncs() {
+		res := fn.Signature.Results()
+		if res.Len() < 2 {
+			continue
+		}
+		incs := map[int]map[*ssa.BinOp]bool{}
+		for k := 0; k < res.Len(); k++ {
+			b, ok := res.At(k).Type().Underlying().(*types.Basic)
+			if !ok || b.Kind() != types.Int {
+				continue
+			}
+			set := map[*ssa.BinOp]bool{}
+			for _, r := range returnsOf(fn) {
+				if k < len(r.Results) {
+					counterIncrements(r.Results[k], map[ssa.Value]bool{}, set)
+				}
+			}
+			if len(set) > 0 {
+				incs[k] = set
+			}
+		}
+		if len(incs) < 2 {
+			continue
+		}
+		facts := factsAt(fn)
+		name := p.fname(fn)
+		common := func(set map[*ssa.BinOp]bool) map[condFact]bool {
+			var out map[condFact]bool
+			for b := range set {
+				f := facts[b.Block()]
+				if out == nil {
+					out = map[condFact]bool{}
+					for k := range f {
+						out[k] = true
+					}
+					continue
+				}
+				for k := range out {
+					if !f[k] {
+						delete(out, k)
+					}
+				}
+			}
+			return out
+		}
+		resName := func(k int) string {
+			if nm := res.At(k).Name(); nm != "" {
+				return nm
+			}
+			return "result " + itoa(k)
+		}
+		var ks []int
+		for k := range incs {
+			ks = append(ks, k)
+		}
+		sort.Ints(ks)
+		for _, a := range ks {
+			for _, b := range ks {
+				if a == b {
+					continue
+				}
+				ca, cb := common(incs[a]), common(incs[b])
+				dist := map[condFact]bool{}
+				for f := range ca {
+					if !cb[f] {
+						dist[f] = true
+					}
+				}
+				if len(dist) == 0 {
+					continue
+				}
+				n++
+				var bad *ssa.BinOp
+				for inc := range incs[b] {
+					for f := range dist {
+						if facts[inc.Block()][f] {
+							if bad == nil || inc.Pos() < bad.Pos() {
+								bad = inc
+							}
+						}
+					}
+				}
+				construct := "a segment counted for " + resName(a) + " is not also counted for " + resName(b)
+				if bad == nil {
+					c.ok(name, construct, p.pos(fn.Pos()), "no increment of "+resName(b)+" lies under the condition that distinguishes the increments of "+resName(a))
+				} else {
+					c.bad(name, construct, p.ipos(bad), resName(b)+" is incremented under the very condition that makes the segment count for "+resName(a)+": the segment is counted twice, it ties with a segment of the other kind on the first ranking key and the next key decides the wrong way")
+				}
+			}
+		}
+	}
+	c.count("counter_pairs", n)
 }
